@@ -1287,7 +1287,21 @@ func (r *verifC15Run) pendingAsync(ref *verifC15Ref, s *verifC15Snap) string {
 		}
 	}
 	if s.State == invpkg.ContractAccepted && s.Hodl {
-		if ex := r.heightEx[ref.id]; ex != 0 && uint32(r.height)+r.in.Cfg.BlockDelta >= ex {
+		// The watcher's entry is the lowest expiry among the htlcs that
+		// were accepted when the invoice became Accepted. Sequential
+		// runs snapshot right after that event (exact); with concurrent
+		// notifiers later duplicates may already be in the snapshot, so
+		// only the upper bound (highest accepted expiry) is certain.
+		ex := r.heightEx[ref.id]
+		if r.conc {
+			ex = 0
+			for _, hs := range s.Htlcs {
+				if hs.State == invpkg.HtlcStateAccepted && hs.Expiry > ex {
+					ex = hs.Expiry
+				}
+			}
+		}
+		if ex != 0 && uint32(r.height)+r.in.Cfg.BlockDelta >= ex {
 			return "height expiry of " + ref.id
 		}
 	}
